@@ -98,8 +98,7 @@ def container_may_be_nonempty(f, var, paired=None):
     return before
 
 
-def unlocked(ctx):
-    rid = "C16.unlocked"
+def unlocked(ctx, rid="C16.unlocked"):
     ctx.rule(rid, "callbacks and every release point of the keep-alive vector are reached with destructionLock not owned "
              "(or the vector empty); no iterator into the shared vector survives an unlock; destroyObjects(delay) "
              "calls destroyObjects()/sleeps only unlocked", floor=6)
